@@ -11,6 +11,7 @@ source expresses, whatever it is spelled with:
 Both are semantics-preserving rewrites of the documented behaviour of these std items; nothing here is specific to
 the crate under analysis."""
 import copy
+import json
 
 OPT_BRANCH = "<core::option::Option<T> as core::ops::try_trait::Try>::branch"
 OPT_RESIDUAL = "<core::option::Option<T> as core::ops::try_trait::FromResidual<core::option::Option<core::convert::Infallible>>>::from_residual"
@@ -153,14 +154,176 @@ def desugar_try_result(mirj):
 
 def apply(facts):
     """desugar every body of a fact base in place; returns statistics"""
-    stats = {"try": 0, "checked_split": 0, "dup_join": 0, "swap_local": 0}
+    stats = {"try": 0, "checked_split": 0, "dup_join": 0, "swap_local": 0, "split_tuple": 0}
     for r in list(facts["fns"]) + list(facts.get("built", [])):
         stats["swap_local"] += swaps_with_local(r.get("mir"))
         stats["checked_split"] += checked_splits(r.get("mir"))
         stats["try"] += desugar_try(r.get("mir"))
         stats["try"] += desugar_try_result(r.get("mir"))
         stats["dup_join"] += dup_return_joins(r.get("mir"))
+        stats["split_tuple"] += split_tuples(r.get("mir"))
     return stats
+
+
+# --------------------------------------------------------------------------------------------------
+# scalar replacement of tuple locals
+# --------------------------------------------------------------------------------------------------
+
+def split_tuples(mirj):
+    """A local of tuple type that is only ever assigned whole from a tuple aggregate and read field by field
+    (`let mut cursors = (a, b); .. let (x, y) = cursors; .. cursors = (x2, y2);`) is replaced by one local per field.
+    A loop-carried pair then is two loop-carried values, as if it had been written with two variables. Locals that are
+    borrowed, passed, returned, assigned from anything else or partially assigned are left alone. In place; returns the
+    number of locals split."""
+    if not mirj:
+        return 0
+    locs = mirj["locals"]
+    nargs = mirj.get("arg_count", 0)
+    cand = {}
+    for i, l in enumerate(locs):
+        ty = l.get("ty", "")
+        if i > nargs and i != 0 and ty.startswith("(") and ty.endswith(")") and ty != "()":
+            cand[i] = None
+    if not cand:
+        return 0
+    bad = set()
+    arity = {}
+
+    def visit_place(pl, whole_ok=False):
+        n = pl.get("local")
+        if n in cand:
+            pr = pl.get("proj") or []
+            if pr and pr[0].get("k") == "field":
+                return
+            if not pr and whole_ok:
+                return
+            bad.add(n)
+
+    def walk(node):
+        if isinstance(node, dict):
+            if "local" in node and "proj" in node:
+                visit_place(node)
+            for k, v in node.items():
+                walk(v)
+        elif isinstance(node, list):
+            for v in node:
+                walk(v)
+
+    for blk in mirj["blocks"]:
+        for st in blk["stmts"]:
+            k = st.get("k")
+            if k in ("storagelive", "storagedead"):
+                continue
+            if k == "assign":
+                pl, rv = st["place"], st["rv"]
+                if pl.get("local") in cand and not pl.get("proj"):
+                    if rv.get("k") == "aggregate" and rv.get("agg") == "tuple":
+                        a = len(rv.get("fields", []))
+                        if arity.setdefault(pl["local"], a) != a:
+                            bad.add(pl["local"])
+                        walk(rv)
+                        continue
+                    bad.add(pl["local"])
+                    walk(rv)
+                    continue
+                if pl.get("local") in cand:
+                    bad.add(pl["local"])  # partial assignment
+                walk(rv)
+                continue
+            walk(st)
+        walk(blk["term"])
+    # only pairs that are carried around a loop: elsewhere a tuple built in two branches and taken apart after the join is
+    # the shape the view rules read (and a join of tuples is as good as two joins)
+    on_cycle = set()
+    for bi, blk in enumerate(mirj["blocks"]):
+        for st in blk["stmts"]:
+            if st.get("k") == "assign" and st["place"].get("local") in cand and not st["place"].get("proj") and bi in _reach(mirj["blocks"], bi):
+                on_cycle.add(st["place"]["local"])
+    todo = [n for n in cand if n not in bad and n in arity and n in on_cycle]
+    if not todo:
+        return 0
+
+    def field_tys(ty):
+        body, out, depth, cur = ty[1:-1], [], 0, ""
+        for ch in body:
+            if ch in "<([":
+                depth += 1
+            elif ch in ">)]":
+                depth -= 1
+            if ch == "," and depth == 0:
+                out.append(cur.strip())
+                cur = ""
+            else:
+                cur += ch
+        if cur.strip():
+            out.append(cur.strip())
+        return out
+
+    newl = {}
+    for n in todo:
+        tys = field_tys(locs[n]["ty"])
+        if len(tys) != arity[n]:
+            continue
+        ids = []
+        for j, t in enumerate(tys):
+            l = dict(locs[n])
+            l["ty"] = t
+            if l.get("name"):
+                l["name"] = "%s.%d" % (l["name"], j)
+            locs.append(l)
+            ids.append(len(locs) - 1)
+        newl[n] = ids
+    if not newl:
+        return 0
+
+    def rewrite(node):
+        if isinstance(node, dict):
+            if "local" in node and "proj" in node and node["local"] in newl:
+                pr = node["proj"]
+                if pr and pr[0].get("k") == "field":
+                    node["local"] = newl[node["local"]][pr[0]["i"]]
+                    node["proj"] = pr[1:]
+            for v in node.values():
+                rewrite(v)
+        elif isinstance(node, list):
+            for v in node:
+                rewrite(v)
+
+    for blk in mirj["blocks"]:
+        out = []
+        for st in blk["stmts"]:
+            k = st.get("k")
+            if k in ("storagelive", "storagedead") and st.get("local") in newl:
+                for m_ in newl[st["local"]]:
+                    out.append(dict(st, local=m_))
+                continue
+            if k == "assign" and st["place"].get("local") in newl and not st["place"].get("proj"):
+                rv = st["rv"]
+                tmp = []
+                # evaluate all operands first (an operand may read a field of the tuple being replaced)
+                for j, fl in enumerate(rv["fields"]):
+                    op = fl["op"]
+                    rewrite(op)
+                    m_ = newl[st["place"]["local"]][j]
+                    tmp.append({"k": "assign", "place": {"local": m_, "proj": [], "ty": locs[m_]["ty"]}, "rv": {"k": "use", "op": op}, "loc": st.get("loc")})
+                reads_self = any(('"local": %d,' % x) in json.dumps(t_["rv"]) for t_ in tmp for x in newl[st["place"]["local"]])
+                if reads_self and len(tmp) > 1:
+                    # (a, b) = (b, a)-style: go through fresh temporaries
+                    pre, post = [], []
+                    for t_ in tmp:
+                        locs.append(dict(locs[t_["place"]["local"]], name=None))
+                        tl = len(locs) - 1
+                        pre.append({"k": "assign", "place": {"local": tl, "proj": [], "ty": locs[tl]["ty"]}, "rv": t_["rv"], "loc": t_.get("loc")})
+                        post.append({"k": "assign", "place": t_["place"], "rv": {"k": "use", "op": {"k": "move", "place": {"local": tl, "proj": [], "ty": locs[tl]["ty"]}}}, "loc": t_.get("loc")})
+                    out.extend(pre + post)
+                else:
+                    out.extend(tmp)
+                continue
+            rewrite(st)
+            out.append(st)
+        blk["stmts"] = out
+        rewrite(blk["term"])
+    return len(newl)
 
 
 # --------------------------------------------------------------------------------------------------
@@ -602,7 +765,7 @@ def thread_all(prog):
         rec = copy.deepcopy(f.rec)
         k = 0
         for _ in range(4):
-            k1 = thread_jumps(rec["mir"]) + dup_small_joins(rec["mir"])
+            k1 = thread_jumps(rec["mir"]) + dup_small_joins(rec["mir"]) + split_tuples(rec["mir"])
             k += k1
             if not k1:
                 break
